@@ -366,7 +366,7 @@ pub fn disassemble_from_address(
     let read_len = instruction_count.saturating_mul(max_len).max(max_len);
     let start = Instant::now();
     let bytes = dbg
-        .read_memory(addr, read_len)
+        .read_original_code(addr, read_len)
         .context("disassemble: read_memory")?;
     let elapsed = start.elapsed();
     if elapsed > timeout {
@@ -423,7 +423,7 @@ pub fn disassemble_from_range(
         .map_err(|err| anyhow!("disassemble: init capstone: {err}"))?;
     let start = Instant::now();
     let bytes = dbg
-        .read_memory(start_addr, read_len)
+        .read_original_code(start_addr, read_len)
         .context("disassemble: read_memory")?;
     let elapsed = start.elapsed();
     if elapsed > timeout {
